@@ -1007,17 +1007,7 @@ func (p *prop) oracle(c *acase, addr caddy.NetworkAddress, o obs, stateChanged b
 			if raw == "" {
 				tags = append(tags, "spec:origin-missing")
 				if touched {
-					emptyHostConfigured := false
-					for _, a := range s.allowed {
-						if a[1] == "" && a[0] == "" {
-							emptyHostConfigured = true
-						}
-					}
-					if emptyHostConfigured {
-						fail("origin-missing-accepted:empty-origin-configured", "request without Origin/Referer passed origin enforcement because an allowed origin with an empty host is configured")
-					} else {
-						fail("origin-missing-accepted", "request without Origin/Referer passed origin enforcement")
-					}
+					fail("origin-missing-accepted", "request without Origin/Referer passed origin enforcement")
 				}
 				return
 			}
